@@ -34,7 +34,7 @@ type cfg struct {
 
 func (c cfg) String() string { return fmt.Sprintf("allowed=%d W=%ds alloc=%s", c.Allowed, c.W, c.Alloc) }
 
-var groups = []string{"A", "B", "Z", ""} // Z = unknown value, "" = header absent
+var groups = []string{"A", "B", "Z", "a", ""} // Z = unknown value, a = unknown value that differs from a listed one only in case, "" = header absent
 var pct = map[string]int64{"A": 50, "B": 25}
 
 type event struct {
